@@ -76,6 +76,7 @@ pub fn run_case(case: &[u8]) -> String {
                 }
             }
             10 => crate::query::case_valve(&mut rd),
+            16 => crate::master::case_master(&mut rd),
             _ => Err(()),
         }
     }));
